@@ -146,7 +146,7 @@ fn build_compare_op(
                 const _: () = {
                     #[allow(clippy::double_parens)]
                     #[allow(unused_parens)]
-                    fn _f #impl_g (__this: &#this_ty) #wheres {
+                    fn __f #impl_g (__this: &#this_ty) #wheres {
                         #body
                     }
                 };
@@ -1128,8 +1128,8 @@ fn build_to_index_fn(variants: &[VariantEntry]) -> TokenStream {
 
 fn build_eq_checker(this: TokenStream) -> TokenStream {
     quote_spanned!(this.span()=>{
-        fn _eq<T: ::core::cmp::Eq + ?::core::marker::Sized>(_this: &T) { }
-        _eq(&(#this))
+        fn __eq<T: ::core::cmp::Eq + ?::core::marker::Sized>(__this: &T) { }
+        __eq(&(#this))
     })
 }
 
